@@ -651,6 +651,7 @@ static int plan_shape(int shape, PTask out[3]) {
     case 5: out[0] = {3, 4, 1}; return 1;                                   // a RESTART task
     case 6: out[0] = {4, 5, 0}; out[1] = {3, 4, 0}; return 2;               // first task's origin may be inactive: it blocks the rest
     case 7: out[0] = {3, 4, 6}; return 1;                                   // a SCHEDULE task
+    case 9: out[0] = {2, 5, 0}; out[1] = {3, 4, 0}; return 2;               // an earlier task whose origin (the head) is ACTIVE but has not succeeded must not block a later one
     default: return 0;
   }
 }
